@@ -1,5 +1,5 @@
 INIT Init
 NEXT Next
-CONSTANTS NL = 6 WE = 3 WO = 1 C = 3 Word = 512 Head2 = 64 SubCarry = 4 Slack = 1 BMode = "corner" PairMode = "some" Variant = "code"
+CONSTANTS NL = 6 WE = 3 WO = 2 C = 3 Word = 512 Head2 = 64 SubCarry = 4 Slack = 2 AMode = "extreme" BMode = "corner" PairMode = "some" Variant = "code"
 INVARIANTS AddSubExact ReduceExact MulExact SquareExact MulIsColumnSum ContractCanonical
 CHECK_DEADLOCK FALSE
